@@ -12,7 +12,7 @@ pub struct C17P;
 pub static C17: C17P = C17P;
 
 fn plan(tier: Tier) -> TextPlan {
-    gen::plan(tier, 1.0)
+    gen::plan(tier, tier.pick(0.5, 1.0))
 }
 
 /// One observed step of a history.
